@@ -536,6 +536,7 @@ def run_stream(exe_cmd, cases, tmp, tag, env=None, timeout=None):
             abandoned = True
             break
         if rounds > 200:
+            abandoned = True        # hundreds of crashing cases: the rest of this stream is left unjudged, not reported as silent
             break
     for i in range(len(cases)):
         if abandoned and i >= start:
